@@ -59,7 +59,7 @@ TxStep(acc, en, t, i) ==
                          \cup (IF t.idx = Get(gg.rcp, <<t.src, t.dst>>, 0) + 1 THEN {} ELSE {<<"C02_ReceiptInOrder", t.id>>})
                          \cup (IF legal THEN {} ELSE {<<"C04_Step", [id |-> t.id, from |-> CurStatus(gg, t.id), by |-> NoticeEv(t)]>>}),
              d |-> acc.d, nt |-> acc.nt \cup {i}]
-       ELSE [acc EXCEPT !.d = IF ShouldAcceptNotice(gg, en, t) THEN @ \cup {<<"rejected", t.id>>} ELSE @]
+       ELSE [acc EXCEPT !.d = IF ShouldAcceptNotice(gg, en, t) /\ t.ret # "fee" THEN @ \cup {<<"rejected", t.id>>} ELSE @]
      ELSE IF t.typ = "REQ" THEN
        IF ok THEN
          [g |-> IF t.gid = "" THEN AcceptReq(gg, en, t, bf) ELSE AcceptGroupReq(gg, en, t, bf),
@@ -74,7 +74,7 @@ TxStep(acc, en, t, i) ==
                       \cup (IF bf = ~DestOK(en, t) \/ t.dstChain = en.bxh THEN {} ELSE {<<"C16_DestGate", t.id>>}),
           d |-> acc.d \cup (IF t.srcLocal \/ SourceOK(en, t) THEN {} ELSE {<<"accepted from an unavailable hub", t.id>>}),
           nt |-> acc.nt]
-       ELSE [acc EXCEPT !.d = IF ShouldAcceptReq(gg, en, t) THEN @ \cup {<<"rejected", t.id>>} ELSE @]
+       ELSE [acc EXCEPT !.d = IF ShouldAcceptReq(gg, en, t) /\ t.ret # "fee" THEN @ \cup {<<"rejected", t.id>>} ELSE @]   \* (a sender that cannot pay the fee is no protocol rejection)
      ELSE
        IF ok THEN
          LET known == t.id \in DOMAIN gg.st \/ t.id \in DOMAIN gg.kid
@@ -87,7 +87,7 @@ TxStep(acc, en, t, i) ==
                          \cup (IF t.idx = Get(gg.rcp, <<t.src, t.dst>>, 0) + 1 THEN {} ELSE {<<"C02_ReceiptInOrder", t.id>>})
                          \cup (IF known /\ ~legal THEN {<<"C04_Step", [id |-> t.id, from |-> CurStatus(gg, t.id), by |-> t.typ]>>} ELSE {}),
              d |-> acc.d, nt |-> acc.nt]
-       ELSE [acc EXCEPT !.d = IF ShouldAcceptRcpt(gg, en, t) THEN @ \cup {<<"rejected", t.id>>} ELSE @]
+       ELSE [acc EXCEPT !.d = IF ShouldAcceptRcpt(gg, en, t) /\ t.ret # "fee" THEN @ \cup {<<"rejected", t.id>>} ELSE @]
 
 RunTxs(g0, en, txs) ==
   LET F[i \in 0..Len(txs)] == IF i = 0 THEN [g |-> g0, v |-> {}, d |-> {}, nt |-> {}] ELSE TxStep(F[i-1], en, txs[i], i)
